@@ -36,7 +36,9 @@ CONFIGS = {
                  dict(universe="retarget", MaxMsgs=3, MaxRestarts=1, MaxFaults=0, MaxCrashes=0),
                  dict(universe="quick", MaxMsgs=4, MaxRestarts=1, MaxFaults=0, MaxCrashes=0),
                  dict(universe="stale", MaxMsgs=3, MaxRestarts=1, MaxFaults=0, MaxCrashes=0),
-                 dict(universe="cpalt", MaxMsgs=3, MaxPeerEv=3, MaxRestarts=1, MaxFaults=1, MaxCrashes=0,
+                 dict(universe="cpalt", MaxMsgs=3, MaxPeerEv=3, MaxRestarts=1, MaxFaults=0, MaxCrashes=0),
+                 # store-rollback failures in the checkpoint-mismatch caller (logs the error and carries on)
+                 dict(universe="cpalt", MaxMsgs=3, MaxPeerEv=1, MaxRestarts=1, MaxFaults=1, MaxCrashes=0,
                       FaultKinds=ROLLBACK_FAULTS),
                  # either peer may connect as a non-candidate (no SFNodeNetwork), with either advertised height
                  dict(universe="u1l", MaxMsgs=3, MaxRestarts=0, MaxFaults=0, MaxCrashes=0)],
@@ -84,7 +86,9 @@ MANIFEST = {
     "C19": dict(engine="BlockManager",
                 text="Same exploration and replay with the driver as the only receiver of the block-notification channel: the events "
                      "emitted by every step (with the filter-store tip seen at delivery) and NotificationsSinceHeight(k) for every k "
-                     "after every step are recorded; DisconnectEvents / ConnectEvents / EventOrder / BacklogExact are evaluated by TLC.",
+                     "after every step are recorded; DisconnectEvents / ConnectEvents / EventOrder / BacklogExact are evaluated by TLC. "
+                     "Tiers faults / thorough: the j-th RollbackLastBlock call of a headers message on the block-header or the "
+                     "filter-header store fails (j = 1..3): what an interrupted rollBackToHeight removed must have been announced.",
                 note=_COMMON_NOTE + " Filter-header writes are the tip/uncheckpointed form with true filter headers; checkpointed "
                      "batches with partial first intervals are exercised by the CFSync family.", design="4 C19",
                 technique="TLA+ spec + TLC exhaustive + spec-to-code replay of every transition + TLC-judged observed traces"),
@@ -95,6 +99,10 @@ ASSUMPTIONS = [
     "all universe timestamps lie within 24 h of now, so the '24 h' clause of BlockHeadersSynced is always true",
     "handlers are called directly from one goroutine (as blockHandler does); writeCFHeadersMsg is atomic w.r.t. them here",
     "fake peers are unconnected btcd peer objects whose startingHeight/lastBlock/services are set by reflection",
+    "injected store errors (faults / thorough tiers): one per history, returned by the driver's store wrapper without touching "
+    "the store; a panic of the reorganisation path on such an error ends the process (only a restart follows)",
+    "quick tier: a peer that is not a full node (no SFNodeNetwork) connects only as the first event of a history, to a client "
+    "that is current, as peer 2 advertising height 7; the thorough tier (universe u1l) has no such restriction",
 ]
 
 
